@@ -380,3 +380,38 @@ def returned_as_computed(ctx, rule, files, pick, extra=(), floor=1):
                   "%s changes its result in place (%s) after computing it" % (path, tam))
     if n < floor:
         ctx.bad(rule, "returned-as-computed:count", "functions-found:%d" % n, ",".join(sorted(files)), "expected at least %d functions" % floor)
+
+
+def writes_inside_the_walk(ctx, rule, files, pick, floor=1):
+    """For the in-place element-wise functions selected by pick(path, leaf, fn): every write to an entry happens inside the walk over the
+    operands.  On the E6 summary of each non-panicking path, the straight-line part (outside all loops / iterator closures) contains no
+    assignment to an indexed place and no Vec / slice method taking `&mut self` other than appends: entry i of the result is what the walk
+    computed for entry i, and nothing patches, drops or moves entries before or after it."""
+    from .. import e6
+    c = ctx.crate
+    n = 0
+    for path, fn in sorted(c.fns.items()):
+        leaf = path.rsplit("::", 1)[-1]
+        if fn.get("file") not in files or not pick(path, leaf, fn):
+            continue
+        live = [p for p in e6.Exec(c, fn).run_fn() if p.exit is None or p.exit[0] == "return"]
+        if not live:
+            continue
+        bad = set()
+        for p in live:
+            for e in p.eff:
+                if e[0] == "set" and e6.find_terms(e[1], lambda t: isinstance(t, tuple) and t and t[0] == "idx"):
+                    bad.add("assignment:" + _strip_ids(e6.show(e[1], 2))[:40])
+                elif e[0] == "mut" and ("Vec" in e[1] or "slice" in e[1] or "[T]" in e[1]) and e[1].rsplit("::", 1)[-1] not in e6._GROWTH:
+                    bad.add(e[1].rsplit("::", 1)[-1])
+        n += 1
+        ctx.check(rule, "::".join(path.split("::")[-2:]) + ":writes-inside-the-walk", not bad, "entry-written-outside-the-walk:" + ",".join(sorted(bad)), c.loc(fn),
+                  "%d paths: no straight-line entry write" % len(live),
+                  "%s writes entries outside its element-wise walk (%s)" % (path, sorted(bad)))
+    if n < floor:
+        ctx.bad(rule, "writes-inside-the-walk:count", "functions-found:%d" % n, ",".join(sorted(files)), "expected at least %d functions" % floor)
+
+
+def _strip_ids(s):
+    import re
+    return re.sub(r"#\w+", "", s)
